@@ -54,7 +54,11 @@ EmitValues(op, dt) ==
           bs == SelectSeq(cat, LAMBDA a : ScalarDefined(op, dt, b, a))
           \* both operands are the SAME tensor object / graph name (x op x): NaN = NaN is still false, x - x of an infinity still NaN
           selfs == SelectSeq(cat, LAMBDA a : ScalarDefined(op, dt, a, a))
-      IN /\ (j = 1 /\ Len(selfs) > 0 =>
+      IN \* both operands of rank 0 (a scalar's backing is not a slice in the tensor library: its own code path)
+         /\ \A i \in 1..Len(cat) :
+               ScalarDefined(op, dt, cat[i], b) =>
+                  PrintT(<<"CASE", ToJson(CaseRec("values", op, ScalarT(dt, cat[i]), ScalarT(dt, b), <<"values", dt, "both_rank0">>))>>)
+         /\ (j = 1 /\ Len(selfs) > 0 =>
                PrintT(<<"CASE", ToJson(CaseRec("values", op, Vec(dt, selfs), Vec(dt, selfs), <<"values", dt, "same_operand">>) @@ [same |-> <<-1, 0>>])>>))
          /\ (Len(as) > 0 => PrintT(<<"CASE", ToJson(CaseRec("values", op, Vec(dt, as), ScalarT(dt, b), <<"values", dt>>))>>))
          /\ (Len(bs) > 0 => PrintT(<<"CASE", ToJson(CaseRec("values", op, T(dt, <<1>>, <<b>>), Vec(dt, bs), <<"values", dt, "scalar_left">>))>>))
